@@ -1,4 +1,5 @@
 import Srtla.Model.Sys
+import Srtla.Lemmas.ReloadBasic
 import Srtla.Lemmas.Conn
 import Srtla.Lemmas.SelectFrame
 /-!
@@ -2060,7 +2061,7 @@ inductive LinkStep (s : Sys F) (e : Ev) (j : Nat) (l l' : FLink F) : Prop
       (hsa : l.shouldAttemptReconnect now = true) (hfb : l.core.connId ∈ s.failBind)
       (hl : ∃ t, l' = withSent (failedLink l now) t)
 
-theorem step_link (s : Sys F) (e : Ev) :
+theorem step_link (s : Sys F) (e : Ev) (hnr : e.isReload = false) :
     (∀ (j : Nat) (l : FLink F), s.links[j]? = some l → ∃ l', (step s e).1.links[j]? = some l' ∧ LinkStep s e j l l') ∧
     (step s e).1.links.length = s.links.length ∧
     (s.reg.hasConnected = true → (step s e).1.reg.hasConnected = true) := by
@@ -2068,6 +2069,7 @@ theorem step_link (s : Sys F) (e : Ev) :
       (∀ j l, s.links[j]? = some l → ∃ l', s'.links[j]? = some l' ∧ LinkStep s e j l l') :=
     fun s' h j l hl => ⟨l, by rw [h]; exact hl, .evolves none (Or.inl rfl) (Evolves.refl _ _ l)⟩
   cases e with
+  | reload now addrs outs => cases hnr
   | client now pkt =>
     obtain ⟨h1, h2, h3⟩ := client_pw s pkt now
     refine ⟨fun j l hl => ?_, h1.length, fun h => by show (handleSrtPacket s pkt now).1.reg.hasConnected = true; rw [h2]; exact h⟩
